@@ -527,7 +527,7 @@ def composed_lean_tv(chk, bins, index, index2, leaf_idx, c15_idx):
         nodes[nid] = {"bin": b, "fn": fn, "ins": ins, "calls": {}, "asked": set(), "parent": parent, "done": None, "err": None}
         return nid
     for fn in with_calls:
-        for ins in _rat_cases(rng, meta[fn], 0, n_per):
+        for ins in _rat_cases(rng, meta[fn], 0, n_per if int(meta[fn].get("paths", 0)) <= 2 else 3 * n_per):
             order.append(new_node(meta[fn]["bin"], fn, ins))
     for rnd in range(12):
         progress = False
